@@ -70,7 +70,8 @@ def do(op):
     if kind == "convert":
         import onnxscript.version_converter as vc
 
-        return {"d": digest(vc.convert_version(model, op["target"], fallback=op.get("fallback", False)).SerializeToString())}
+        vc.convert_version(model, op["target"], fallback=op.get("fallback", False))
+        return {"d": digest(model.SerializeToString())}
     if kind == "bad_pattern":
         # a pattern constructor that raises inside pattern_builder / a rule whose check stashes state then fails
         from onnxscript.rewriter import pattern
